@@ -58,7 +58,7 @@ type getter func(req *spb.GetRequest) ([]*spb.GetResponse, error, error)
 
 func TestCheck(t *testing.T) {
 	run := ev.Start(t, "C07", "exploration")
-	n := run.Pick(400, 12000)
+	n := run.Pick(1000, 12000)
 	ev.Parallel(n, ev.Workers(), func(i int) {
 		caseID := fmt.Sprintf("rib-%d", i)
 		if !run.Want(caseID) {
